@@ -762,3 +762,8 @@ fn dont_hand_out_old_stale_lease() {
     /* Do not assigned the old_reserved address! */
     assert_ne!(lease.ip, old_reserved);
 }
+
+#[cfg(feature = "isomer_erbium_verif")]
+mod isomer_erbium_verif {
+    include!(concat!(env!("ISOMER_ERBIUM_VERIF_DIR"), "/dhcp_pool.rs"));
+}
